@@ -257,3 +257,25 @@ def check_C12(run: Run):
     ps += _pairs(run, rng, 80 if q else 800, twins.show_pair, dict(variants=['FO/8', 'F7S/8', 'PO'], boards=(1, 2, 2), mode='C'), pol, tid0=10000)
     twins.validate_pairs(run, ps, 'C12_auto-vs-show-everything', 'C12')
     run.need('muck', 'op:HK')
+
+
+PHH_VARIANTS = ['FT', 'NT', 'NS', 'PO', 'FO/8', 'F7S', 'F7S/8', 'FR', 'N2L1D', 'F2L3D', 'FB']
+
+
+def check_C16(run: Run):
+    rng = random.Random(run.seed * 31 + 16)
+    q = run.tier == 'quick'
+    pol = dict(probe_level=0, probe_every=0.0, illegal=0.0, noop=0.0, runout=0.0, partial_show=0.0)
+    ps = _pairs(run, rng, 260 if q else 3000, twins.phh_pair, dict(variants=PHH_VARIANTS, boards=(1,)), pol)
+    for p in ps:
+        run.count('partial_history' if p['A']['create']['post'] and not p['A'].get('finished') else 'terminal_history')
+    twins.validate_pairs(run, ps, 'C16_round-trip-and-replay', 'C16')
+    ps2 = _pairs(run, rng, 120 if q else 1200, twins.phh_pair, dict(variants=PHH_VARIANTS, boards=(1,), stacks='short', ante_p=0.9),
+                 dict(pol, fold=0.05, allin=0.2), tid0=5000)
+    twins.validate_pairs(run, ps2, 'C16_short-stacks-antes', 'C16')
+    run.sample({'phh_text': ps[0].get('text'), 'original_hand': T.short_hand(ps[0]['A'])})
+    run.rule = ('pairs (hand played on the engine, replay of the history written from it and loaded back) over the 11 PHH variants, '
+                'terminal and cut hands, int chips; TLC validates the original against the model and decides equality of the PHH '
+                'actions (Notation!PhhActions), cards, stacks and payoffs; text idempotence and field equality are byte/object '
+                'comparisons made by the harness and required TRUE by TLC (not decided by the specification)')
+    run.need('partial_history', 'terminal_history', 'discard', 'op:BI')
